@@ -1,6 +1,8 @@
 package piece
 
 import (
+	"github.com/cenkalti/rain/v2/internal/allocator"
+	"github.com/cenkalti/rain/v2/internal/metainfo"
 	"github.com/cenkalti/rain/v2/internal/filesection"
 	vrt "github.com/cenkalti/rain/v2/internal/zzvrt"
 )
@@ -91,4 +93,81 @@ func ZZBlocksTileReal() {
 	}
 	blocks := p.CalculateBlocks()
 	zzCheckBlocks(secs, total, blocks, BlockSize)
+}
+
+// zzFlatFile returns, for absolute torrent offset x (a byte of the
+// concatenation of all files), the index of the file containing it and the
+// offset inside that file.
+func zzFlatFile(info *metainfo.Info, x int64) (int, int64) {
+	var pos int64
+	for i, f := range info.Files {
+		if x >= pos && x-pos < f.Length {
+			return i, x - pos
+		}
+		pos += f.Length
+	}
+	return -1, 0
+}
+
+// ZZNewPiecesTile: for every info dictionary NewInfo accepts (<=3 files,
+// <=3 pieces, all lengths symbolic), NewPieces terminates without panic and
+// the pieces' sections enumerate the concatenation of all files exactly once.
+//
+//vrt:cover ZZNewPiecesTile a piece spans two files
+//vrt:cover ZZNewPiecesTile a zero-length file
+//vrt:cover ZZNewPiecesTile last piece is shorter
+func ZZNewPiecesTile() { zzNewPiecesTile(3, 3) }
+
+// ZZNewPiecesTileSmall is the same check with <=2 files and <=2 pieces (quick tier).
+//
+//vrt:cover ZZNewPiecesTileSmall a piece spans two files
+//vrt:cover ZZNewPiecesTileSmall a zero-length file
+//vrt:cover ZZNewPiecesTileSmall last piece is shorter
+func ZZNewPiecesTileSmall() { zzNewPiecesTile(2, 2) }
+
+func zzNewPiecesTile(maxFiles, maxPieces int) {
+	info, err, _ := metainfo.ZZSymbolicInfo(maxFiles, maxPieces, true)
+	if err != nil {
+		return
+	}
+	files := make([]allocator.File, len(info.Files))
+	for i, f := range info.Files {
+		files[i] = allocator.File{Name: f.Path, Padding: f.Padding}
+	}
+	pieces := NewPieces(info, files)
+	vrt.Assert(uint32(len(pieces)) == info.NumPieces, "wrong number of pieces")
+	x := vrt.I64("witness_torrent_offset")
+	vrt.Assume(x >= 0 && x < info.Length)
+	wantFile, wantOff := zzFlatFile(info, x)
+	found := 0
+	var pos int64 // absolute offset of the current section
+	for i := range pieces {
+		p := &pieces[i]
+		vrt.Assert(p.Index == uint32(i), "piece index wrong")
+		if uint32(i) < info.NumPieces-1 {
+			vrt.Assert(p.Length == info.PieceLength, "non-last piece does not have the piece length")
+		} else {
+			vrt.Assert(p.Length > 0 && p.Length <= info.PieceLength, "last piece empty or too long")
+			vrt.Cover(p.Length < info.PieceLength, "last piece is shorter")
+		}
+		vrt.Assert(pos == int64(i)*int64(info.PieceLength), "piece does not start at index*pieceLength")
+		var plen int64
+		vrt.Cover(len(p.Data) >= 2 && p.Data[0].Length > 0 && p.Data[1].Length > 0, "a piece spans two files")
+		for _, s := range p.Data {
+			vrt.Assert(s.Length >= 0, "negative section length")
+			vrt.Cover(s.Length == 0, "a zero-length file")
+			if x >= pos && x-pos < s.Length {
+				found++
+				// which file is it? sections carry the file name
+				vrt.Assert(wantFile >= 0 && s.Name == info.Files[wantFile].Path, "section maps to the wrong file")
+				vrt.Assert(s.Offset+(x-pos) == wantOff, "section maps to the wrong file offset")
+				vrt.Assert(wantFile >= 0 && s.Padding == info.Files[wantFile].Padding, "section padding flag differs from file")
+			}
+			pos += s.Length
+			plen += s.Length
+		}
+		vrt.Assert(plen == int64(p.Length), "sections do not add up to the piece length")
+	}
+	vrt.Assert(pos == info.Length, "pieces do not cover the total length")
+	vrt.Assert(found == 1, "a torrent byte is not covered exactly once")
 }
